@@ -129,4 +129,30 @@ def shapeOf (t : List Entry) (bases : List (String × String)) (c m : String) : 
   | some e => e.shape
   | none => .unknown
 
+/-- for a `singleCall` body: the method the one shared access calls (`self.m(…)`, or the locked
+`_get_dir_entry`); `none` when the access is of another kind (delegate, os, file I/O, …) -/
+def Entry.singleCallee (e : Entry) : Option String :=
+  match e.body with
+  | .segs l =>
+    match (relevant e.cls l).flatMap (Seg.shared e.cls) with
+    | [.selfCall n] => some n
+    | [.getDirEntry] => some "_get_dir_entry"
+    | _ => none
+  | .unknown _ => none
+
+/-- the method is ONE atomic piece on class `c`: one locked block, or a single call to a method
+that is (followed through the table, at most `fuel` calls deep) -/
+def atomicIn (t : List Entry) (bases : List (String × String)) : Nat → String → String → Bool
+  | 0, _, _ => false
+  | fuel + 1, c, m =>
+    match resolve t bases 8 c m with
+    | some e =>
+      (match e.shape with
+       | .singleLocked => true
+       | .singleCall => (match e.singleCallee with
+          | some n => atomicIn t bases fuel c n
+          | none => false)
+       | _ => false)
+    | none => false
+
 end Fs.Lock
